@@ -2,6 +2,7 @@
 import TF.Drv.Proto
 import TF.Model.Lattice
 import TF.Model.Keccak
+import TF.Gen.LatticeLoops
 /-! driver handler for the family `lat` (C18).  Field elements travel as canonical values, bytes as naturals < 256.
 The hash parameters of the KEM model are instantiated with the executable SHAKE256 / SHA3-256 of `TF/Model/Keccak.lean`. -/
 namespace TF.Drv.Lattice
@@ -46,13 +47,44 @@ def tamperNoise (c : Ciphertext) (which k delta : Nat) : Ciphertext :=
   if which < 4 then { c with bg := c.bg.setIfInBounds which (ringAdd (c.bg.getD which ringZero) eh) }
   else { c with bgaM := c.bgaM.setIfInBounds 0 (ringAdd (c.bgaM.getD 0 ringZero) eh) }
 
+/-! The loops of `lattice.rs` are **also regenerated from source** on every run (`TF/Gen/LatticeLoops.lean`, written by
+`tools/rs2lean_lattice.py`) and proved equal to the hand model (`TF/Proofs/GenBridgeLattice.lean`).  The driver evaluates
+the regenerated definition next to the hand model; the reply differs visibly (`GEN-MISMATCH`) when the value differs, the
+regenerated function does not finish within its fuel, or its `_ok` twin reports a panic (the hand model never panics on
+the shapes the driver admits). -/
+def genCheck (fn : String) (gen : Option (List Nat)) (ok : Bool) (model : List Nat) (reply : String) : String :=
+  if ok && gen == some model then reply
+  else
+    let g := match gen with
+      | some l => fmtList l
+      | none => "out-of-fuel"
+    s!"GEN-MISMATCH {fn} ok={ok} gen={g} model={reply}"
+
 def lat : Handler
-  | "cntt", [x] => do let a ← ring? x; pure (okRing (ntt64 a))
-  | "cintt", [x] => do let a ← ring? x; pure (okRing (intt64 a))
-  | "radd", [x, y] => do let a ← ring? x; let b ← ring? y; pure (okRing (ringAdd a b))
-  | "rsub", [x, y] => do let a ← ring? x; let b ← ring? y; pure (okRing (ringSub a b))
-  | "rhad", [x, y] => do let a ← ring? x; let b ← ring? y; pure (okRing (ringHadamard a b))
-  | "rmul", [x, y] => do let a ← ring? x; let b ← ring? y; pure (okRing (ringMul a b))
+  | "cntt", [x] => do
+      let a ← ring? x
+      pure (genCheck "coset_ntt_noswap_64" (TF.Gen.Loops.lat_coset_ntt_noswap_64 TF.Model.Ntt.bOps a.toList)
+        (TF.Gen.Loops.lat_coset_ntt_noswap_64_ok TF.Model.Ntt.bOps a.toList) (ntt64 a).toList (okRing (ntt64 a)))
+  | "cintt", [x] => do
+      let a ← ring? x
+      pure (genCheck "coset_intt_noswap_64" (some (TF.Gen.Loops.lat_coset_intt_noswap_64 TF.Model.Ntt.bOps a.toList))
+        (TF.Gen.Loops.lat_coset_intt_noswap_64_ok TF.Model.Ntt.bOps a.toList) (intt64 a).toList (okRing (intt64 a)))
+  | "radd", [x, y] => do
+      let a ← ring? x; let b ← ring? y
+      pure (genCheck "add" (some (TF.Gen.Loops.lat_ring_add a.toList b.toList)) (TF.Gen.Loops.lat_ring_add_ok a.toList b.toList)
+        (ringAdd a b).toList (okRing (ringAdd a b)))
+  | "rsub", [x, y] => do
+      let a ← ring? x; let b ← ring? y
+      pure (genCheck "sub" (some (TF.Gen.Loops.lat_ring_sub a.toList b.toList)) (TF.Gen.Loops.lat_ring_sub_ok a.toList b.toList)
+        (ringSub a b).toList (okRing (ringSub a b)))
+  | "rhad", [x, y] => do
+      let a ← ring? x; let b ← ring? y
+      pure (genCheck "hadamard" (some (TF.Gen.Loops.lat_ring_hadamard a.toList b.toList)) (TF.Gen.Loops.lat_ring_hadamard_ok a.toList b.toList)
+        (ringHadamard a b).toList (okRing (ringHadamard a b)))
+  | "rmul", [x, y] => do
+      let a ← ring? x; let b ← ring? y
+      pure (genCheck "mul" (TF.Gen.Loops.lat_ring_mul a.toList b.toList) (TF.Gen.Loops.lat_ring_mul_ok a.toList b.toList)
+        (ringMul a b).toList (okRing (ringMul a b)))
   | "mmul", [.sym strat, .nat h, .nat inner, .nat w, x, y] => do
       let a ← module? (h * inner) x
       let b ← module? (inner * w) y
@@ -66,8 +98,13 @@ def lat : Handler
   | "msub", [.nat n, x, y] => do let a ← module? n x; let b ← module? n y; pure ("ok:" ++ fmtModule (modSub a b))
   | "mntt", [.nat n, x] => do let a ← module? n x; pure ("ok:" ++ fmtModule (modNtt a))
   | "mintt", [.nat n, x] => do let a ← module? n x; pure ("ok:" ++ fmtModule (modIntt a))
-  | "embed", [m] => do let b ← bytes? 32 m; pure (okRing (embedMsg b))
-  | "extract", [x] => do let a ← ring? x; pure ("ok:" ++ fmtList (extractMsg a))
+  | "embed", [m] => do
+      let b ← bytes? 32 m
+      pure (genCheck "embed_msg" (some (TF.Gen.Loops.lat_embed_msg b)) (TF.Gen.Loops.lat_embed_msg_ok b) (embedMsg b).toList (okRing (embedMsg b)))
+  | "extract", [x] => do
+      let a ← ring? x
+      pure (genCheck "extract_msg" (some (TF.Gen.Loops.lat_extract_msg a.toList)) (TF.Gen.Loops.lat_extract_msg_ok a.toList) (extractMsg a)
+        ("ok:" ++ fmtList (extractMsg a)))
   | "sshort", [r] => do let b ← bytes? 8 r; pure s!"ok:{sampleShortElem b}"
   | "rshort", [r] => do let b ← bytes? 512 r; pure (okRing (sampleShortRing b))
   | "runiform", [r] => do let b ← bytes? 576 r; pure (okRing (sampleUniformRing b))
